@@ -104,7 +104,8 @@ def lean_obligations(ctx):
     """Regenerate Gen/*.lean, build the property's theorem module, audit axioms.
     Returns dict(obligations=[names], discharged=[names], broken=[{name, why}], ...)"""
     out = {"obligations": [], "discharged": [], "broken": [], "checker_cmd": "", "axioms": {}, "extract": None}
-    mod = ctx.spec.get("lean_module")
+    mods = ctx.spec.get("lean_modules") or ([ctx.spec.get("lean_module")] if ctx.spec.get("lean_module") else [])
+    mod = mods[0] if mods else None
     with Lock("lean"):
         rc, txt = sh([sys.executable, os.path.join(ROOT, "tools", "extract.py")])
         try:
@@ -115,8 +116,8 @@ def lean_obligations(ctx):
             out["broken"].append({"name": "extract", "why": "translator could not read /repo/src: " + str(out["extract"].get("error"))})
         if mod is None:
             return out
-        cmd = f"lake build {mod}"
-        out["checker_cmd"] = f"cd lean && python3 ../tools/extract.py && {cmd} && lake env lean {mod.replace('.', '/')}.lean  # + axiom audit, forbidden-token scan"
+        cmd = "lake build " + " ".join(mods)
+        out["checker_cmd"] = f"cd lean && python3 ../tools/extract.py && {cmd} && " + " && ".join(f"lake env lean {m.replace('.', '/')}.lean" for m in mods) + "  # + axiom audit, forbidden-token scan"
         t = time.time()
         rc, txt = sh(cmd, cwd=LEAN, timeout=3000)
         ctx.log(f"lake build {mod}: rc={rc} in {time.time() - t:.1f}s")
@@ -131,34 +132,37 @@ def lean_obligations(ctx):
             for n in sorted(names):
                 out["broken"].append({"name": n, "why": "does not check: " + "; ".join(f"{l}: {m}" for l, m in errs[:3])})
             out["build_log_tail"] = txt[-1500:]
-        # list of obligations = theorems audited in the property file
-        path = os.path.join(LEAN, mod.replace(".", "/") + ".lean")
-        src = open(path).read() if os.path.exists(path) else ""
-        wanted = re.findall(r"^#print axioms\s+(\S+)", src, flags=re.M)
-        out["obligations"] = wanted
-        if build_ok:
-            rc, txt = sh(f"lake env lean {mod.replace('.', '/')}.lean", cwd=LEAN, timeout=3000)
-            if rc != 0:
-                out["broken"].append({"name": mod, "why": "re-elaboration failed: " + txt[-300:]})
-            for m in re.finditer(r"'([^']+)' depends on axioms: \[([^\]]*)\]", txt):
-                out["axioms"][m.group(1)] = [a.strip() for a in m.group(2).replace("\n", " ").split(",") if a.strip()]
-            for m in re.finditer(r"'([^']+)' does not depend on any axioms", txt):
-                out["axioms"][m.group(1)] = []
-            for name in wanted:
-                full = [k for k in out["axioms"] if k == name or k.endswith("." + name)]
-                if not full:
-                    out["broken"].append({"name": name, "why": "no #print axioms output"})
-                    continue
-                bad = [a for a in out["axioms"][full[0]] if a not in ALLOWED_AXIOMS]
-                if bad:
-                    out["broken"].append({"name": name, "why": f"depends on disallowed axioms {bad}"})
-                else:
-                    out["discharged"].append(name)
-        hits = forbidden_scan(mod, ctx.spec.get("drivers", ["Driver.Main"]))
+        # list of obligations = theorems audited in the property file(s)
+        wanted_all = []
+        for m_ in mods:
+            path = os.path.join(LEAN, m_.replace(".", "/") + ".lean")
+            src = open(path).read() if os.path.exists(path) else ""
+            wanted = re.findall(r"^#print axioms\s+(\S+)", src, flags=re.M)
+            wanted_all += wanted
+            if build_ok:
+                rc, txt = sh(f"lake env lean {m_.replace('.', '/')}.lean", cwd=LEAN, timeout=3000)
+                if rc != 0:
+                    out["broken"].append({"name": m_, "why": "re-elaboration failed: " + txt[-300:]})
+                for m in re.finditer(r"'([^']+)' depends on axioms: \[([^\]]*)\]", txt):
+                    out["axioms"][m.group(1)] = [a.strip() for a in m.group(2).replace("\n", " ").split(",") if a.strip()]
+                for m in re.finditer(r"'([^']+)' does not depend on any axioms", txt):
+                    out["axioms"][m.group(1)] = []
+                for name in wanted:
+                    full = [k for k in out["axioms"] if k == name or k.endswith("." + name)]
+                    if not full:
+                        out["broken"].append({"name": name, "why": "no #print axioms output"})
+                        continue
+                    bad = [a for a in out["axioms"][full[0]] if a not in ALLOWED_AXIOMS]
+                    if bad:
+                        out["broken"].append({"name": name, "why": f"depends on disallowed axioms {bad}"})
+                    else:
+                        out["discharged"].append(name)
+        out["obligations"] = wanted_all
+        hits = forbidden_scan(None, list(mods) + ctx.spec.get("drivers", ["Driver.Main"]))
         if hits:
             out["broken"].append({"name": "forbidden-token-scan", "why": "; ".join(hits[:5])})
         if ctx.tier == "thorough" and build_ok:
-            rc, txt = sh(f"lake env leanchecker {mod}", cwd=LEAN, timeout=3000)
+            rc, txt = sh("lake env leanchecker " + " ".join(mods), cwd=LEAN, timeout=3000)
             out["leanchecker_rc"] = rc
             if rc != 0:
                 out["broken"].append({"name": "leanchecker", "why": txt[-300:]})
